@@ -17,6 +17,16 @@ CORE = "htmltools._core"
 def emission_obligations(ctx: Ctx, m: Any, pid: str) -> None:
     """Escape typestate of every emission site of a child's text (shared by C02 and C04)."""
     n_plain = 0
+    # whether text is escaped must not depend on module-level state that something assigns at run time
+    seen_g = set()
+    for where_, leaf_ in [(TL, r_.leaf) for r_ in m.sib_rows] + [(TG, l_) for l_ in m.frame_leaves]:
+        for e_ in leaf_.effects:
+            if e_.kind in ("global_read", "global_store") and (where_, str(e_.target), e_.kind) not in seen_g:
+                seen_g.add((where_, str(e_.target), e_.kind))
+                ctx.fail(f"{pid}.pure", where_, f"{e_.kind.replace('_', ' ')} {e_.target}",
+                         f"rendering {'reads' if e_.kind == 'global_read' else 'assigns'} the module-level variable `{e_.target}`, which is re-assigned at run time: "
+                         f"whether a string is escaped depends on what was rendered before (or on an exception that left the variable set)",
+                         witness="an exception while a <script> with several children is rendered, then any other render")
     for step in walk(m, block_in_inline=True):
         ch, p = step["child"], step["params"]
         if ch.kind in META_KINDS or step["spec"]["outcome"] == "raise":
